@@ -10,8 +10,11 @@ trap 'git -C /repo worktree remove --force $wt; rm -rf $wt.out' EXIT
 git -C $wt apply "$d/patch.diff" || { echo "== $d: patch does not apply"; exit 2; }
 (cd $wt && go build ./...) || { echo "== $d: does not build"; exit 2; }
 cd /verif
+# snapshot of the machinery, so that edits made to /verif while a batch runs do not leak into it
+snap=$wt.snap; mkdir -p $snap; cp -r contracts tools known_findings.json $snap/; cp bin/govc $snap/govc
+trap 'git -C /repo worktree remove --force $wt; rm -rf $wt.out $wt.snap' EXIT
 for p in "$@"; do
-  out=$(VERIF_OUT=$wt.out bin/govc check --repo $wt --prop $p --tier quick 2>&1); rc=$?
+  out=$(VERIF_DIR=$snap VERIF_OUT=$wt.out $snap/govc check --repo $wt --prop $p --tier quick 2>&1); rc=$?
   echo "== $d $p exit=$rc $(echo "$out" | tail -1 | cut -c1-100)"
   echo "$out" | grep "^VIOLATION" | sed "s|$wt.out|OUT|" | cut -c1-230 | head -6
 done
